@@ -32,16 +32,18 @@ type ordv struct {
 type ordScenario struct{ prio, ts int } // relation of i to j: -1 less, 0 equal, 1 greater
 
 type ordFrame struct {
-	fn   *ssa.Function
-	args []ordv
-	sc   ordScenario
-	memo map[ssa.Value]ordv
-	prev *ssa.BasicBlock
-	d    int
+	fn                   *ssa.Function
+	args                 []ordv
+	sc                   ordScenario
+	memo                 map[ssa.Value]ordv
+	prev                 *ssa.BasicBlock
+	d                    int
 	prioField, timeField string
 }
 
-func unknownf(format string, a ...any) ordv { return ordv{kind: "unknown", why: fmt.Sprintf(format, a...)} }
+func unknownf(format string, a ...any) ordv {
+	return ordv{kind: "unknown", why: fmt.Sprintf(format, a...)}
+}
 
 func relOf(sc ordScenario, kind, a, b string) int {
 	r := sc.prio
